@@ -17,7 +17,11 @@ use std::collections::BTreeSet;
 pub fn panic_class(prefix: &str, msg: &str) -> String {
     // "message @ file:line" -> class keyed by location only
     let loc = msg.rsplit(" @ ").next().unwrap_or("?");
-    let loc = loc.trim_start_matches("/repo/");
+    // keep the repository-relative part ("src/…"), whatever the checkout path
+    let loc = match loc.rfind("/src/") {
+        Some(i) => &loc[i + 1..],
+        None => loc,
+    };
     format!("{}@{}", prefix, loc)
 }
 
